@@ -1088,7 +1088,8 @@ pub fn c12_for_each_fold(h: &History) -> Verdict {
         }
     }
     // combined fold over all threads = sequential fold of the elements not pulled directly
-    {
+    // (elements must be identifiable by value for that: not for zero-sized elements, which are only counted)
+    if distinct_vals(&h.info, h) {
         let info = &h.info;
         let mut direct = vec![false; info.len];
         let mut any_fold = false;
